@@ -1439,7 +1439,8 @@ func (v *VMValue) ArrayRepeatTimesEx(ctx *Context, times *VMValue) *VMValue {
 			return nil
 		}
 		// 先判断次数再相乘: 次数很大时乘积会溢出成负数或较小的正数，绕过下面的长度检查
-		if times > 512 {
+		// (空数组重复任意次仍是空数组)
+		if len(ad.List) > 0 && times > 512 {
 			ctx.Error = errors.New("不能一次性创建过长的数组")
 			return nil
 		}
